@@ -3,6 +3,7 @@ package main
 // smt.go - term language, sorts, SMT-LIB printing.
 
 import (
+	"sync"
 	"fmt"
 	"sort"
 	"strings"
@@ -378,6 +379,7 @@ type FuncDecl struct {
 
 // Decls is the symbol table of one verification context.
 type Decls struct {
+	mu     sync.RWMutex // discharge runs obligations of one function in parallel
 	sorts  []string
 	sortOK map[string]bool
 	funs   []*FuncDecl
@@ -400,6 +402,8 @@ func (d *Decls) sort(name string) {
 
 // declare registers an uninterpreted function/constant (idempotent).
 func (d *Decls) declare(name string, params []string, res string) {
+	d.mu.Lock()
+	defer d.mu.Unlock()
 	if f, ok := d.byName[name]; ok {
 		if f.Res != res || len(f.Params) != len(params) {
 			panic(fmt.Sprintf("redeclare %s: %v->%s vs %v->%s", name, f.Params, f.Res, params, res))
@@ -442,7 +446,17 @@ func (d *Decls) define(name string, pnames, psorts []string, res string, body *T
 	}
 }
 
+// has reports whether a symbol has been declared.
+func (d *Decls) has(name string) bool {
+	d.mu.RLock()
+	defer d.mu.RUnlock()
+	_, ok := d.byName[name]
+	return ok
+}
+
 func (d *Decls) axiom(name string, t *Term) {
+	d.mu.Lock()
+	defer d.mu.Unlock()
 	d.axioms = append(d.axioms, t)
 	d.axName = append(d.axName, name)
 }
@@ -510,6 +524,8 @@ func (d *Decls) query(hyps []*Term, goal *Term, wantModel []string) string {
 // queryX is query with extra terms whose values are requested after check-sat
 // (projection of a counterexample onto the function's inputs).
 func (d *Decls) queryX(hyps []*Term, goal *Term, wantModel []string, extra []*Term, qfOnly bool) string {
+	d.mu.RLock()
+	defer d.mu.RUnlock()
 	used := map[string]bool{}
 	for _, x := range extra {
 		collectSyms(x, used)
